@@ -257,6 +257,18 @@ func c17ExtractHandler(path string, facts *c17Facts) map[string]c17Exit {
 
 	visit(fn.Body.List, nil, nil)
 
+	// the model (handlerCtx) says the run does not depend on the request's context: true only
+	// as long as Handler never looks at it
+	ast.Inspect(fn.Body, func(n ast.Node) bool {
+		if se, ok := n.(*ast.SelectorExpr); ok && (se.Sel.Name == "Context" || se.Sel.Name == "WithContext") {
+			if id, ok := se.X.(*ast.Ident); ok && id.Name == "r" {
+				facts.Unknown = append(facts.Unknown, "Handler reads the request's context at line "+itoa(fset.Position(se.Pos()).Line)+" (the model takes the run to be independent of it)")
+			}
+		}
+
+		return true
+	})
+
 	// a return hidden in a function literal after Begin would escape the walk above
 	ast.Inspect(fn.Body, func(n ast.Node) bool {
 		if fl, ok := n.(*ast.FuncLit); ok && fl.Pos() > beginPos {
